@@ -1,4 +1,5 @@
 import IndicatifModel.Proofs.Bridge
+import IndicatifModel.Proofs.BarReq
 /-!
 # C01 — Single-bar redraw integrity: terminal = printed lines + current frame
 
@@ -101,5 +102,71 @@ example : let rs : List Req := [⟨[[104, 105, 33, 33, 33, 33, 33, 33]], [[65, 6
   rcases hr with rfl | rfl
   · exact ⟨by simp [wrapAll, h1, h2], by simp [Req.lines, firstNonEmpty]⟩
   · exact ⟨by simp [wrapAll, h3], by simp [Req.lines, firstNonEmpty]⟩
+
+/-! ## The same statement about bar operations (the executable `Model/Bar`, tied to the crate by the BAR stream) -/
+
+/-- a bar, its terminal, and what the screen is meant to show: the lines printed so far and the frame of the last completed draw -/
+structure BarWorld where
+  bar : Bar
+  term : Term
+  logs : List (List Nat) := []
+  frame : List (List Nat) := []
+
+/-- one public call at virtual time `now`: the terminal executes the calls the bar makes; when a draw was completed the screen
+is meant to show the log extended by what the call printed, followed by the rendering of the state the call leaves -/
+def BarWorld.step (w : BarWorld) (p : Nat × BarOp) : BarWorld :=
+  let r := w.bar.step p.1 p.2
+  { bar := r.1, term := w.term.execAll r.2,
+    logs := if r.2 = [] then w.logs else w.logs ++ printedBy p.2,
+    frame := if r.2 = [] then w.frame else frameRows r.1 }
+
+/-- every operation of the history is inside the theorem's scope in the state it is applied in: unit-width glyphs, frames that
+fit the height, non-empty first lines, no `suspend` (see `OpOk`) -/
+def OkRun (W H : Nat) : BarWorld → List (Nat × BarOp) → Prop
+  | _, [] => True
+  | w, p :: ps => OpOk W H w.bar p.1 p.2 ∧ OkRun W H (w.step p) ps
+
+/-- **C01 for bar operations.** A bar on a fresh terminal of any width `W ≥ 1` and height `H ≥ 1` (any refresh limiter, the code
+as it is now or with any subset of the repairs): after every history of `tick` / `inc` / `dec` / `set_position` / `set_message` /
+`set_prefix` / `set_length` / `unset_length` / `println` / `reset` / `finish*` / `abandon*` / `finish_using_style` / drop calls at
+any times — draws skipped by the limiter or the position gate included — the rows down to the cursor are exactly the lines
+printed so far, wrapped at the terminal width, followed by the rendering of the bar's state at the last completed draw, with no
+remnant of an earlier frame, and the cursor is parked for following output. Scope: unit-width glyphs, frames that fit the
+height, non-empty first lines (`OkRun`); `suspend` is covered at the draw-request level and by the BAR stream. -/
+theorem C01_bar_history (fx : Fixes) (W H : Nat) (hW : 0 < W) (hH : 0 < H) (b0 : Bar) (tt0 : TermTarget)
+    (hb : b0.target = some tt0) (hT : TInv W H fx tt0) (hllc : tt0.llc = 0) (ops : List (Nat × BarOp))
+    (hok : OkRun W H { bar := b0, term := Term.init W H } ops) :
+    let w := ops.foldl BarWorld.step { bar := b0, term := Term.init W H }
+    BInv W H fx w.bar w.term w.logs w.frame := by
+  have key : ∀ (ops : List (Nat × BarOp)) (w : BarWorld), BInv W H fx w.bar w.term w.logs w.frame → OkRun W H w ops →
+      BInv W H fx (ops.foldl BarWorld.step w).bar (ops.foldl BarWorld.step w).term (ops.foldl BarWorld.step w).logs
+        (ops.foldl BarWorld.step w).frame := by
+    intro ops
+    induction ops with
+    | nil => intro w h _; exact h
+    | cons p ps ih =>
+      intro w h hr
+      apply ih (w.step p) _ hr.2
+      rcases step_binv W H fx hW w.bar w.term w.logs w.frame p.1 p.2 h hr.1 with ⟨he, hB⟩ | ⟨hne, hB⟩
+      · simp only [BarWorld.step, he, if_true, Term.execAll]
+        simpa [BarWorld.step, he] using hB
+      · simp only [BarWorld.step, hne, if_false]
+        exact hB
+  exact key ops _ ⟨tt0, hb, hT, by rw [hllc]; exact init_integrity W H hW hH⟩ hok
+
+/-- non-vacuity: a concrete bar (`{prefix}{pos}/{len} {msg}` on a 7-column terminal) and a history with a message that makes
+the frame wrap, a printed line and a finish are inside the scope of `C01_bar_history` -/
+example :
+    let u (cs : List Nat) : Text := cs.map (fun c => ⟨c, 1⟩)
+    let b0 : Bar := { len := some 5, pfx := u [65], tpl := [.prefix, .pos, .lit (u [47]), .len, .lit (u [32]), .msg],
+                      target := some { W := 7, H := 4 }, onFinish := .andLeave }
+    OkRun 7 4 { bar := b0, term := Term.init 7 4 }
+      [(0, .tick), (1, .setMsg (u [104, 101, 108, 108, 111])), (2, .println (u [76, 49])), (3, .inc 2), (4, .finish .andLeave)] := by
+  intro u b0
+  have fo : ∀ b : Bar, (∀ l ∈ frameLines b, UnitT l.gs) → ((frameRows b).map (fun cs => wrappedHeight 7 (mkLine .bar cs))).sum ≤ 4 →
+      firstNonEmpty (frameRows b) → FrameOk 7 4 b := fun b h1 h2 h3 => ⟨h1, by rw [wrapAll_len 7 (by decide)]; exact h2, h3⟩
+  simp only [OkRun, OpOk]
+  refine ⟨⟨fo _ ?_ ?_ ?_, trivial⟩, ⟨fo _ ?_ ?_ ?_, trivial⟩, ⟨fo _ ?_ ?_ ?_, ?_, ?_⟩, ⟨fo _ ?_ ?_ ?_, trivial⟩, ⟨fo _ ?_ ?_ ?_, trivial⟩, trivial⟩ <;>
+    decide +kernel
 
 end IndicatifModel
